@@ -117,6 +117,20 @@ Definition spec_remove (l : list Z) (idx : nat) : option (list Z * Z) :=
   end.
 
 (* ---- operation sequences: the model run and the reference run ---- *)
+Section ArrOps.
+(* qsort(base, nmemb, size, cmp) of the C library with the caller's comparison function, as a
+   function on the block of members it is given; theorems assume only what the C standard
+   promises (the result is a permutation of the input, sorted by cmp) *)
+Variable qsort : list Z -> list Z.
+
+(* ares_array_sort: qsort over the [cnt] members starting at [offset] *)
+Definition arr_sort (a : arr) : outcome arr :=
+  if Nat.ltb (a_cnt a) 2 then Ok a
+  else if Nat.ltb (alloc_cnt a) (a_off a + a_cnt a) then UB OutOfBounds
+  else Ok (mkArr (firstn (a_off a) (a_cells a)
+                  ++ qsort (firstn (a_cnt a) (skipn (a_off a) (a_cells a)))
+                  ++ skipn (a_off a + a_cnt a) (a_cells a)) (a_cnt a) (a_off a)).
+
 Definition arr_first (a : arr) : option Z := arr_at a 0.
 (* ares_array_last *)
 Definition arr_last (a : arr) : option Z :=
@@ -126,7 +140,8 @@ Inductive arr_op :=
 | AInsAt (idx : nat) (v : Z) | AInsFirst (v : Z) | AInsLast (v : Z)
 | ARemAt (idx : nat) | ARemFirst | ARemLast
 | AAt (idx : nat) | AFirst | ALast | ALen
-| ASetSize (n : nat).
+| ASetSize (n : nat)
+| ASort.
 
 Inductive arr_res :=
 | RStatus (s : Z)          (* status of an insert, or of a failed removal *)
@@ -162,6 +177,7 @@ Definition arr_step (alloc_ok : bool) (a : arr) (o : arr_op) : arr * arr_res :=
   | ALast => (a, RVal (arr_last a))
   | ALen => (a, RLen (arr_len a))
   | ASetSize n => arr_res_ins a (arr_set_size alloc_ok a n)
+  | ASort => arr_res_ins a (arr_sort a)
   end.
 
 Fixpoint arr_run (a : arr) (ops : list (bool * arr_op)) : arr * list arr_res :=
@@ -203,6 +219,7 @@ Definition aspec_step (l : list Z) (o : arr_op) : list Z * arr_res :=
   | ALen => (l, RLen (length l))
   | ASetSize n =>
     (l, RStatus (if Nat.eqb n 0 || Nat.ltb n (length l) then ARES_EFORMERR else ARES_SUCCESS))
+  | ASort => (qsort l, RStatus ARES_SUCCESS)
   end.
 
 Fixpoint aspec_run (l : list Z) (ops : list arr_op) : list Z * list arr_res :=
@@ -229,3 +246,4 @@ Fixpoint aspec_trace (l : list Z) (ops : list (bool * arr_op)) (rs : list arr_re
         /\ r = RStatus ARES_ENOMEM /\ aspec_trace l ops' rs' lfinal)
   | _, _ => False
   end.
+End ArrOps.
